@@ -183,9 +183,60 @@ def gen_ifaces(rng):
     return out
 
 
+# builtin types as the first classes of a world: (name, bases) chains; class 0 is ``object``
+FAMILIES = {
+    "bytearray": [("bytearray", [0])],
+    "dict": [("dict", [0])],
+    "list": [("list", [0])],
+    "exc": [("BaseException", [0]), ("Exception", [1]), ("ValueError", [2])],
+    "type": [("type", [0])],              # heap classes deriving from it are metaclasses
+}
+
+
+def gen_builtin_classes(rng, fam):
+    """the builtin chain followed by 2-4 heap classes, some deriving from a builtin of the chain, some
+    plain mixins; a valid C3 order throughout"""
+    chain = FAMILIES[fam]
+    k = len(chain)
+    for _ in range(200):
+        bases_of = {0: []}
+        for i, (_n, bs) in enumerate(chain):
+            bases_of[i + 1] = list(bs)
+        n_heap = rng.choice([2, 3, 3, 4])
+        ok = True
+        for c in range(k + 1, k + n_heap + 1):
+            heap = list(range(k + 1, c))
+            r = rng.random()
+            if c == k + 1 or r < 0.35:
+                bs = [rng.randrange(1, k + 1) if rng.random() < 0.8 else k]       # a builtin of the chain
+                if heap and rng.random() < 0.4:
+                    bs = [rng.choice(heap)] + bs if rng.random() < 0.5 else bs + [rng.choice(heap)]
+            elif r < 0.5:
+                bs = [0]                                                            # a plain mixin
+            else:
+                rng.shuffle(heap)
+                bs = heap[:rng.choice([1, 1, 2])]
+                if rng.random() < 0.3:
+                    bs.append(k)
+            bases_of[c] = bs
+            if len(set(bs)) != len(bs) or c3(bases_of, c, {}) is None:
+                ok = False
+                break
+        if ok:
+            return [bases_of[c] for c in range(1, k + n_heap + 1)], {str(i + 1): n for i, (n, _b) in enumerate(chain)}
+    raise C.HarnessError("could not generate a class DAG over the %s family" % fam)
+
+
 def gen_case(rng, tier):
     ifaces = gen_ifaces(rng)
-    classes = gen_classes(rng)
+    fam = rng.choice(sorted(FAMILIES)) if rng.random() < 0.35 else None
+    builtins = {}
+    if fam:
+        classes, builtins = gen_builtin_classes(rng, fam)
+    else:
+        classes = gen_classes(rng)
+    nb = len(builtins)                     # classes 1..nb are builtin types
+    no_decl = {int(i) for i, n in builtins.items() if n == "type"}      # process-global and pre-existing: never declared on
     ni, nc = len(ifaces), len(classes)
     bases_of = {0: []}
     for k, bs in enumerate(classes):
@@ -194,24 +245,28 @@ def gen_case(rng, tier):
     mro = {c: c3(bases_of, c, memo) for c in bases_of}
     assert all(m is not None for m in mro.values())
     some_ifaces = lambda k: rng.sample(range(1, ni + 1), min(k, ni))   # noqa
-    # instances: mostly of the most derived classes
+    # instances: mostly of the most derived classes; [class, direct, falsy?, own __implemented__, is a class object?]
     objects = []
-    leaves = sorted(range(1, nc + 1), key=lambda c: -len(mro[c]))
+    leaves = sorted(range(nb + 1, nc + 1), key=lambda c: -len(mro[c]))
     for _ in range(rng.choice([1, 2, 2, 3])):
         c = leaves[0] if rng.random() < 0.6 else rng.choice(leaves)
-        objects.append([c, some_ifaces(rng.choice([0, 1, 1, 2]))])
+        meta = fam == "type" and any(builtins.get(str(x)) == "type" for x in mro[c])
+        # an instance of a metaclass is a class object; an instance may carry its own __implemented__
+        # (``implementer(IX)(ob)`` on a factory instance, ``classImplements(Klass, IX)`` on a class object)
+        own = some_ifaces(rng.choice([1, 1, 2])) if rng.random() < (0.7 if meta else 0.4) else None
+        objects.append([c, [] if meta else some_ifaces(rng.choice([0, 1, 1, 2])), False, own, meta])
     falsy = None
-    if rng.random() < 0.3:
+    if not fam and rng.random() < 0.3:
         # instances that are false in a boolean context (empty containers, __bool__ False): the
         # underlying object of a proxy must reach the factory whatever its truth value
         falsy = rng.choice(["len", "bool"])
         for o in objects:
-            o.append(rng.random() < 0.7)
+            o[2] = rng.random() < 0.7
     ops = []
     # initial declarations; some classes stay undeclared mixins, some are *only* classes
     for c in range(1, nc + 1):
         r = rng.random()
-        if r < 0.3:
+        if r < 0.3 or c in no_decl:
             continue
         if r < 0.45:
             ops.append(["only", c, some_ifaces(rng.choice([0, 1, 2]))])
@@ -240,7 +295,7 @@ def gen_case(rng, tier):
                 ops.append(["prov", ["super", cc, j]])
                 if rng.random() < 0.5:
                     ops.append(["implby", ["super", cc, j]])
-            if rng.random() < 0.5:
+            if rng.random() < 0.5 and not objects[j][4]:
                 ops.append(["prov", ["obj", j]])
         # class-bound proxies super(C, T) for classes with and without instances
         for t in range(1, nc + 1):
@@ -272,12 +327,13 @@ def gen_case(rng, tier):
                 return ["super", cc_, j_]
             if len(req) == 1:
                 via = rng.choice(["qa", "hook", "multi"])
-                a = proxy(j, cc) if rng.random() < 0.85 else ["obj", j]
+                a = proxy(j, cc) if rng.random() < 0.85 or objects[j][4] else ["obj", j]
                 ops.append(["adapt", via, [a], p, nm])
             else:
                 j2 = rng.randrange(len(objects))
                 a1 = proxy(j, cc)
-                a2 = ["obj", j2] if rng.random() < 0.5 else proxy(j2, rng.choice(mro[objects[j2][0]][:-1]))
+                a2 = (["obj", j2] if rng.random() < 0.5 and not objects[j2][4]
+                      else proxy(j2, rng.choice(mro[objects[j2][0]][:-1])))
                 pair = [a1, a2] if rng.random() < 0.5 else [a2, a1]
                 ops.append(["adapt", "multi", pair, p, nm])
             if rng.random() < 0.5:
@@ -288,6 +344,8 @@ def gen_case(rng, tier):
         j = rng.randrange(len(objects))
         m = mro[objects[j][0]]
         c = rng.choice(m[:-1]) if rng.random() < 0.85 else rng.randrange(1, nc + 1)
+        if c in no_decl:
+            c = objects[j][0]
         r = rng.random()
         if r < 0.18 and c > 1:
             ops.append(["implspec", c, rng.randrange(1, c)])
@@ -313,6 +371,8 @@ def gen_case(rng, tier):
     case = {"ifaces": ifaces, "classes": classes, "objects": objects, "ops": ops}
     if falsy:
         case["falsy"] = falsy
+    if builtins:
+        case["builtins"] = builtins
     return case
 
 
@@ -516,18 +576,28 @@ def replay_text(case, obs, mode):
          "                            classImplements, classImplementsOnly, classImplementsFirst)",
          "from zope.interface.interface import InterfaceClass",
          "from zope.interface.adapter import AdapterRegistry",
+         "from zope.interface import implementer",
+         "OWN = lambda ob, *ifs: classImplements(ob, *ifs) if isinstance(ob, type) else implementer(*ifs)(ob)",
          "I = [Interface]; K = [object]; registry = AdapterRegistry()",
          "show = lambda spec: sorted(I.index(i) for i in spec.flattened())",
          "def factory(vid):", "    return lambda *obs: (vid, ['proxy' if isinstance(o, super) else O.index(o) if o in O else o for o in obs])"]
     for k, bs in enumerate(case["ifaces"]):
         L.append("I.append(InterfaceClass('I%d', (%s), {}))" % (k + 1, "".join("I[%d], " % b for b in bs) or "Interface,"))
     for k, bs in enumerate(case["classes"]):
-        L.append("K.append(type('C%d', (%s), {}))" % (k + 1, "".join("K[%d], " % b for b in bs)))
+        if str(k + 1) in case.get("builtins", {}):
+            L.append("K.append(%s)" % case["builtins"][str(k + 1)])
+        else:
+            L.append("K.append(type('C%d', (%s), {}))" % (k + 1, "".join("K[%d], " % b for b in bs)))
     if case.get("falsy"):
         L.append("# every class defines %s reading a per-instance flag; falsy instances: %s" % (
             {"len": "__len__ (0 when flagged)", "bool": "__bool__ (False when flagged)"}[case["falsy"]],
             [j for j, o in enumerate(case["objects"]) if len(o) > 2 and o[2]]))
-    L.append("O = [K[c]() for c in %r]" % [o[0] for o in case["objects"]])
+    L.append("O = [K[c]('K', (object,), {}) if issubclass(K[c], type) else K[c]() for c in %r]" % [o[0] for o in case["objects"]])
+    for j, o in enumerate(case["objects"]):
+        if len(o) > 3 and o[3]:
+            L.append("%s   # the object's own __implemented__" % (
+                ("classImplements(O[%d], %s)" if o[4] else "implementer(%s)(O[%d])" if False else "OWN(O[%d], %s)")
+                % (j, ", ".join("I[%d]" % i for i in o[3]))))
     for j, o in enumerate(case["objects"]):
         d = o[1]
         if d:
